@@ -178,6 +178,14 @@ def check_plan(c, ctx, tag):
         x2, want2, _ = make_input_and_reference(dims, nt, fwd, r2c, bf, c["seed"] + 7919 * k)
         got2 = w.call(x2)
         ctx.close(got2, want2, ("dft_repeated_call", cls), rtol=0, atol=TOL * n * float(np.max(np.abs(x2))))
+        # the same array object refilled in place (a reused work buffer): the result is the DFT of what the array holds now
+        if k == 1:
+            xbuf = x2.copy()
+            w.call(xbuf)
+            x3, want3, _ = make_input_and_reference(dims, nt, fwd, r2c, bf, c["seed"] + 104729)
+            xbuf[...] = x3
+            got3 = w.call(xbuf)
+            ctx.close(got3, want3, ("dft_refilled_input_array", cls), rtol=0, atol=TOL * n * float(np.max(np.abs(x3))))
         # the array returned by the first call is the caller's: later calls on the plan do not rewrite it
         ctx.equal_bits(got, got_then, ("result_overwritten_by_later_call", cls))
     # wrongly shaped input: ValueError, plan still usable
